@@ -554,32 +554,75 @@ theorem break_cause {c : Conn} (hb : c.broken = false) (k : BreakKind) : (step c
   rfl
 
 
-/-- A well-formed EVENT on stream -1 is forwarded; the request path does not notice. -/
-theorem wellformed_event_is_harmless (eventOk : Frame → Bool) (c : Conn) (f : Frame) (hs : f.stream = -1)
-    (hok : eventOk f = true) : deliverFrameEv eventOk c f = c := by
+/-- A well-formed EVENT on stream -1 is forwarded — WHEN the event channel takes it (receiver alive, a free slot):
+the request path does not notice, one slot is used. -/
+theorem wellformed_event_is_forwarded (eventOk : Frame → Bool) (ch : EvChan) (c : Conn) (f : Frame)
+    (hs : f.stream = -1) (hb : c.broken = false) (hok : eventOk f = true) (hopen : ch.closed = false)
+    (hroom : 0 < ch.room) :
+    deliverFrameEv eventOk ch c f = some (c, { ch with room := ch.room - 1 }) := by
   unfold deliverFrameEv
-  simp only [hs, if_true, hok]
-  split <;> rfl
+  have : ¬ ch.room = 0 := by omega
+  simp [hs, hb, hok, hopen, this]
+
+/-- The receiver of the event channel is gone (`SendError`): even a WELL-FORMED event ends the router with
+`CqlEventHandlingError`, and nobody is left waiting. -/
+theorem event_receiver_gone_breaks (eventOk : Frame → Bool) (ch : EvChan) (c : Conn) (h : Inv c)
+    (hb : c.broken = false) (f : Frame) (hs : f.stream = -1) (hok : eventOk f = true) (hcl : ch.closed = true) :
+    ∃ c', deliverFrameEv eventOk ch c f = some (c', ch) ∧ c'.broken = true ∧
+      c'.cause = some .cqlEventHandlingError ∧
+      ∀ r, getCaller c'.callers r = some .waiting → r ∈ c'.permits := by
+  refine ⟨step c (.break_ .cqlEventHandlingError), ?_, break_sets_broken _ _, break_cause hb _, fun r hw =>
+    inv_broken_waiter _ (h.step _) (break_sets_broken _ _) r hw⟩
+  unfold deliverFrameEv
+  simp [hs, hb, hok, hcl]
+
+/-- The event channel is full: the reader blocks ON that frame — it and every byte after it (answers to requests,
+to keep-alives) stay unread, the connection state does not move. What ends this is the consumer making room, or —
+if it never does — the keep-alive timeout (`keepalive_silence_breaks`: no response reaches the probe). -/
+theorem full_event_channel_stalls_reader (eventOk : Frame → Bool) (ch : EvChan) (c : Conn) (hb : c.broken = false)
+    (f : Frame) (hw : f.wf) (rest : List UInt8) (eof : Bool) (hs : f.stream = -1) (hok : eventOk f = true)
+    (hopen : ch.closed = false) (hfull : ch.room = 0) :
+    readerEv eventOk ch c (encode f ++ rest) eof = (c, encode f ++ rest, ch) := by
+  rw [readerEv]
+  simp only [hb, Bool.false_eq_true, if_false]
+  have hf := readFrame_encode f hw rest
+  split
+  · rename_i f' rest' hf'
+    rw [hf] at hf'
+    cases hf'
+    have : deliverFrameEv eventOk ch c f = none := by
+      unfold deliverFrameEv; simp [hs, hb, hok, hopen, hfull]
+    rw [this]
+  · rename_i hne
+    exact absurd hf (hne f rest)
 
 /-- Anything else on stream -1 (a non-EVENT opcode, a body that does not parse as an event) ends the router with
-`CqlEventHandlingError`, and nobody is left waiting. -/
-theorem malformed_event_breaks (eventOk : Frame → Bool) (c : Conn) (h : Inv c) (hb : c.broken = false) (f : Frame)
-    (hs : f.stream = -1) (hbad : eventOk f = false) :
-    (deliverFrameEv eventOk c f).broken = true ∧
-    (deliverFrameEv eventOk c f).cause = some .cqlEventHandlingError ∧
-    ∀ r, getCaller (deliverFrameEv eventOk c f).callers r = some .waiting →
-      r ∈ (deliverFrameEv eventOk c f).permits := by
-  have e : deliverFrameEv eventOk c f = step c (.break_ .cqlEventHandlingError) := by
-    unfold deliverFrameEv
-    simp only [hs, if_true, hb, Bool.false_eq_true, if_false, hbad]
-  rw [e]
-  exact ⟨break_sets_broken _ _, break_cause hb _, fun r hw =>
+`CqlEventHandlingError` whatever the state of the event channel, and nobody is left waiting. -/
+theorem malformed_event_breaks (eventOk : Frame → Bool) (ch : EvChan) (c : Conn) (h : Inv c) (hb : c.broken = false)
+    (f : Frame) (hs : f.stream = -1) (hbad : eventOk f = false) :
+    ∃ c', deliverFrameEv eventOk ch c f = some (c', ch) ∧ c'.broken = true ∧
+      c'.cause = some .cqlEventHandlingError ∧
+      ∀ r, getCaller c'.callers r = some .waiting → r ∈ c'.permits := by
+  refine ⟨step c (.break_ .cqlEventHandlingError), ?_, break_sets_broken _ _, break_cause hb _, fun r hw =>
     inv_broken_waiter _ (h.step _) (break_sets_broken _ _) r hw⟩
+  unfold deliverFrameEv
+  simp [hs, hb, hbad]
 
 /-- On every other stream the event sender changes nothing. -/
-theorem event_sender_only_matters_on_stream_minus_one (eventOk : Frame → Bool) (c : Conn) (f : Frame)
-    (hs : f.stream ≠ -1) : deliverFrameEv eventOk c f = deliverFrame c f := by
+theorem event_sender_only_matters_on_stream_minus_one (eventOk : Frame → Bool) (ch : EvChan) (c : Conn) (f : Frame)
+    (hs : f.stream ≠ -1) : deliverFrameEv eventOk ch c f = some (deliverFrame c f, ch) := by
   unfold deliverFrameEv; simp [hs]
+
+/-- non-vacuity: capacity 1, never drained: the first STATUS_CHANGE-like event is forwarded, the second blocks the
+reader with the answer of request 0 behind it unread. -/
+example :
+    let ok : Frame → Bool := fun f => f.opcode == 0x0C
+    let c := run Conn.init [.submit, .writerTake]
+    let ev : Frame := ⟨0, -1, 0x0C, [1]⟩
+    let bytes := encode ev ++ encode ev ++ encode ⟨0, 0, 0x08, [7]⟩
+    let r := readerEv ok ⟨false, 1⟩ c bytes false
+    r.2.2 = ⟨false, 0⟩ ∧ r.2.1 = encode ev ++ encode ⟨0, 0, 0x08, [7]⟩ ∧
+      getCaller r.1.callers 0 = some .waiting := by decide +kernel
 
 /-! ## 6. the keepaliver (`Model/ConnIO.lean` `kaTurn`) -/
 
